@@ -12,6 +12,21 @@ CHECKS = {
  'C14': ('exploration', 'runtime monitoring of instrumented Reqs callbacks (event log: call counts, concurrency, visit orders) under permuted lists and injected latencies with the race detector; results compared with a sequential fixpoint model; semver against an independent SemVer 2.0 model + order axioms',
    'Random requirement graphs, each run under several (permutation x latency) schedules with -race; BuildList/Req/Upgrade/UpgradeAll/Graph decided by a brute-force closure, Downgrade by invariants; semver on random valid/near-valid triples.',
    'Trusts the brute-force closure and the SemVer model (unit-tested against the semver.org examples); schedules are the ones the Go scheduler produced under the injected latencies.', 'DESIGN.md §4 C14'),
+ 'C06': ('exploration', 'reference-oracle monitor: every evaluated a op b, div/mod/quo/rem, comparison, literal and math builtin compared with a math/big oracle; order axioms on triples; print→read round trips',
+   'Exhaustive over a boundary operand set (signs, 0, ±1..3, halves, 2^53/2^63/2^64/10^34±1/2^127/2^128) × itself, PRNG beyond (1-300 digit integers, decimals with exponents); literals generated from the spec grammar with their exact value.',
+   'Trusts math/big, the 34-digit documented precision for /, and the literal generator (written from spec §Numeric literals). Two recorded findings (decimal + - * rounded to 34 digits; fractional SI literals rejected) are matched by exact class.', 'DESIGN.md §4 C06'),
+ 'C09': ('exploration', 'runtime monitors around the parser (recover + watchdog + crash-dump classifier with write-ahead input file, position-invariant walker, agreement with literal/ast) and around literal.Form.Quote (round trip through Unquote, parser and evaluator)',
+   'All quoting forms × all strings of ≤2 elements over a 40-element hostile alphabet exhaustively, PRNG strings beyond; 30k (quick) / 1M (thorough) parser inputs from corpus mutations, token soups, single candidate literals and deep nestings.',
+   'Containment/sibling-order invariants are required of accepted inputs only; partial trees returned next to errors are checked for bounds and start<=end. Labels are compared after NFC normalisation (what the compiler does).', 'DESIGN.md §4 C09'),
+ 'C15': ('exploration', 'file-system snapshot monitor (Lstat walk with type/size/mode/sha256 before and after) around modzip.Unzip inside a sandbox root with sentinels; round-trip oracle; three-way checker agreement',
+   'PRNG acceptable trees (round trip incl. 16MiB±1 LICENSE/module.cue with real bytes) and hostile archives (mutated names, mode bits, forged declared sizes via CreateRaw, Store and Deflate).',
+   'Runs as root on Linux; containment is judged from the observed file system state, not from return values. Four documented-difference classes between the checkers are recorded findings.', 'DESIGN.md §4 C15'),
+ 'C16': ('fault_enumeration', 'crash-point enumeration through build-tag hooks (kill at the n-th hook, inspect, recover), crash pairs, registry fault injection over a loopback OCI stack, multi-process concurrent histories checked offline with porcupine (nondeterministic model, open operations kept open), race detector, strace kill-injection at every file-system syscall as hook-independent cross-check',
+   'Every hook point of Fetch+ModFile is a crash point (exhaustive); pairs sampled in quick and exhaustive in thorough; faults at several body offsets; 20/500 concurrent histories.',
+   'Crashes are process kills (no power loss); each process owns an in-memory registry with identical deterministic content; linearizability model = per-version absent/present.', 'DESIGN.md §4 C16'),
+ 'C18': ('exploration', 'event-log monitor: instrumented Runners record start/end with a global sequence number and the inputs they saw (unique tokens derived from inputs); completion order driven logically through per-task gates from UpdateFunc; offline ordering / at-most-once / completeness / final-value checker; race detector',
+   'PRNG DAGs (struct and list tasks, 6 reference shapes, dynamic tasks) × 12/120 schedules each (one-at-a-time, racing completions, free running, adversarial orders), failures/ErrAbort injected, cyclic variants.',
+   'Dependency ground truth is the reference list of the generator; hang = 60 s watchdog re-confirmed at 120 s.', 'DESIGN.md §4 C18'),
 }
 ALL = [json.loads(l)['id'] for l in open('/verif/properties.jsonl')]
 NA_REASON = {}
